@@ -450,6 +450,36 @@ theorem C29_metamodel_nodes_nodup_partial (all : List MCls) (base : List Str) (s
     (ho : NoOuterClass all (base ++ [cl!"OBJECT"])) : (nodeIds ss).Nodup :=
   mmDotStmts_nodup hs hn ho
 
+/-- **Edges connect classes that have nodes.** On a closed class table every end of a link or
+inheritance edge of the metamodel DOT export is the id of a class of the table, and that class has its
+node statement unless it is a match rule or named like a base type (these are shown in the match table /
+not at all, Graphviz then draws an implicit node). -/
+theorem C29_metamodel_edges_have_nodes (all : List MCls) (base : List Str) (hall : ∀ c ∈ all, ClsOk c)
+    (h : ∀ c ∈ all, (∀ a ∈ c.attrs, (findCls all a.clsId).isSome) ∧ ∀ i ∈ c.inhBy, (findCls all i).isSome) :
+    ∃ text ss, mmDot all base = some text ∧ mmDotStmts all base = some ss ∧
+      ∀ i ∈ mmEdgeEnds ss, ∃ c ∈ all, c.id = i ∧
+        (c.fqn ∉ base ++ [cl!"OBJECT"] → c.name ∉ base ++ [cl!"OBJECT"] → c.typ ≠ .match → i ∈ nodeIds ss) := by
+  obtain ⟨⟨text, ht⟩, _⟩ := C29_metamodel_total all base h
+  obtain ⟨ss, hss, _, _, _, hn⟩ := C29_metamodel_dot_valid all base hall text ht
+  refine ⟨text, ss, ht, hss, ?_⟩
+  intro i hi
+  obtain ⟨c, hc, rfl⟩ := mmDotStmts_ends hss (fun c hc => (h c hc).1) i hi
+  refine ⟨c, hc, rfl, fun h1 h2 hm => ?_⟩
+  have := (hn c hc h1 h2 hm).1
+  simp only [nodeIds, List.mem_filterMap]
+  exact ⟨_, this, rfl⟩
+
+/-- no class has two nodes, with executable hypotheses (the driver reports for every compared metamodel
+whether it lies in this domain; the harness then checks the node statements of the real export) -/
+theorem C29_metamodel_nodup_checked (all : List MCls) (base : List Str) (h1 : mmClosedB all = true)
+    (h2 : mmIdsDistinctB all = true) (h3 : noOuterClassB all (base ++ [cl!"OBJECT"]) = true) :
+    ∃ ss, mmDotStmts all base = some ss ∧ (nodeIds ss).Nodup := by
+  obtain ⟨⟨text, ht⟩, _⟩ := C29_metamodel_total all base (mmClosed_of_B h1)
+  unfold mmDot at ht
+  cases hs : mmDotStmts all base with
+  | none => simp [hs] at ht
+  | some ss => exact ⟨ss, rfl, mmDotStmts_nodup hs (nodup_of_distinctB h2) (noOuterClass_of_B h3)⟩
+
 /-- metamodel DOT export, end to end with executable hypotheses (evaluated by the driver on every
 compared case): a text **is produced**, it is valid DOT, every class that is not a match rule / base
 type is recognised as a node with a well-formed record label, and a node id has one label only. -/
@@ -538,7 +568,8 @@ def exampleMM : List MCls :=
 
 example : exampleMM.all clsOkB = true ∧ mmClosedB exampleMM = true ∧ mmIdsDistinctB exampleMM = true ∧
     exampleMM.all pclsOkB = true ∧ linetypeOkB (some cl!"ortho") = true ∧
-    (mmDotStmts exampleMM []).map nodeIds = some [1, 2] := by decide +kernel
+    noOuterClassB exampleMM [cl!"OBJECT"] = true ∧ (mmDotStmts exampleMM []).map nodeIds = some [1, 2] ∧
+    (mmDotStmts exampleMM []).map mmEdgeEnds = some [1, 2, 2, 1] := by decide +kernel
 
 /-- `MMClosed` / the hypothesis of `C29_metamodel_total` can fail, and then no text is produced:
 a dangling attribute class, a dangling `inh_by` entry -/
